@@ -103,7 +103,7 @@ func (r *rwRT) ruleMutGuard() {
 			vals = append(vals, e.BoundVals...)
 			for _, v := range vals {
 				cl := v.(Closure)
-				if cl.Fn == nil || !inRw(cl.Fn) || cl.Fn.Parent() == rf || seenCb[cl.Fn] {
+				if cl.Fn == nil || !inRw(cl.Fn) || outermost(cl.Fn) == rf || seenCb[cl.Fn] {
 					continue // the forwarding closure of rewriteFile itself is not a pass
 				}
 				seenCb[cl.Fn] = true
